@@ -182,7 +182,7 @@ func (f *Flow) damageCases() []DamageRec {
 	for _, k := range w.Disk.SortedKeys() {
 		v := w.Disk.M[k]
 		cl := recClass(k, v)
-		if cl != "publish" && cl != "pubrel" {
+		if cl != "publish" && cl != "pubrel" && cl != "clientid" {
 			continue
 		}
 		for pos := range v {
@@ -297,6 +297,34 @@ func (m *monC15) Final(f *Flow) {
 	// a record damaged in a single byte, or shorter than 12 bytes, must be
 	// reported and must not be adopted
 	for _, d := range f.Damage {
+		if d.Class == "clientid" && (d.Kind == "alter" || (d.Kind == "truncate" && d.Len < 12)) {
+			// never used as a client identifier: no CONNECT at all may be
+			// written (Wire flags a wrong identifier), and it surfaces as
+			// an error
+			reported := f.AdoptFatal != nil
+			for _, e := range f.ReaderErrs {
+				if strings.Contains(e.Error(), "unavailable") || strings.Contains(e.Error(), "corrupt") || strings.Contains(e.Error(), "truncated") {
+					reported = true
+				}
+			}
+			for _, warn := range f.AdoptWarn[f.damageGen()] {
+				if containsKey(warn.Error(), 0) {
+					reported = true
+				}
+			}
+			connects := 0
+			for _, c := range w.AllConns {
+				if c.Gen >= f.damageGen() && len(c.Pkts) > 0 {
+					connects++
+				}
+			}
+			if !reported && w.Inconcl == "" {
+				w.Violate("C15", "damage-undetected", "client-identifier-"+d.Kind, "the client-identifier record was damaged (%s pos=%d len=%d) and neither AdoptSession nor ReadSlices reported it; %d CONNECT packets were written", d.Kind, d.Pos, d.Len, connects)
+			} else {
+				w.Probe("damage_reported")
+			}
+			continue
+		}
 		if d.Class != "publish" && d.Class != "pubrel" {
 			continue
 		}
